@@ -88,6 +88,7 @@ class WriterRun(object):
     self.stop = stop
     self.ev = []
     self.now = 100.0
+    self.ts0 = 100
     self.pending_cnt = False
 
   def mid(self, name):
@@ -195,6 +196,7 @@ class WriterRun(object):
     for op in self.r_ops:
       if op[0] == 'store':
         _, m, ts, vid = op
+        ts = self.ts0 + ts            # timestamps close to the (virtual) present
         self.r_pending = (m, ts, vid)
         try:
           self.cache.store(m, (ts, float(vid)))
